@@ -8,7 +8,8 @@ for sid in ids:
     mp = os.path.join(V, "seeded", sid, "meta.json")
     meta = json.load(open(mp))
     checks = meta.get("run_checks") or [meta["property"]]
-    p = subprocess.run([os.path.join(V, "tools", "run_seeded.py"), sid] + checks, capture_output=True, text=True, cwd=V)
+    p = subprocess.run([os.path.join(V, "tools", "run_seeded.py"), sid] + checks, capture_output=True, text=True, cwd=V,
+                       env=dict(os.environ, VERIF_NOMIN="1"))
     det = []
     cur = None
     for line in p.stdout.splitlines():
